@@ -8,10 +8,18 @@ import Dhcp.Driver.ClientLTS
       one SendAndRead call under virtual time (Dhcp.Client.Timed.runCall).
       kinds: acc rej (same xid, matcher accepts / rejects; with m=nil both are
       accepted), ix ig io ih ie (wrong xid, garbage, wrong op, wrong hwaddr,
-      empty: all dropped by the receive loop), can (ctx cancelled), clo (Close).
+      empty: all dropped by the receive loop), can (ctx cancelled), cdl (the
+      context was created with its deadline at this instant: ctx.Err() is
+      context.DeadlineExceeded; first event of its instant), clo (Close).
       `s` = applied after quiescence, `n` = applied right away.
       Output: `ok <alt> | <alt> | …`, every result the model allows, each
       `tx=<t,…|-> ret=<t>:<resp<i>|noresp|ctx>|running close=<t|->`.
+
+  `client4h|client6h T=<ns> n=<k> calls=<c> mut=<x|o|xo>`: c successive calls on
+      one client with the SAME message object, mutated between calls (x: new
+      transaction id, o: option added/changed), no traffic. Each call is an
+      independent run of the timed model; output `ok c0=<tx…>:<ret> c1=…` with
+      instants relative to the call's start.
 
   `client4m|client6m …`: multi-caller scenarios on the interleaving model, see
   Dhcp/Driver/ClientLTS.lean.
@@ -23,17 +31,19 @@ def parseEvKind (matchNil : Bool) : String → Option Timed.EvKind
   | "acc" => some .acc
   | "rej" => some (if matchNil then .acc else .rej)
   | "ix" | "ig" | "io" | "ih" | "ie" => some .irr
-  | "can" => some .cancel
+  | "can" | "cdl" => some .cancel
   | "clo" => some .close
   | _ => none
 
 def parseEvent (matchNil : Bool) (s : String) : Option Timed.Event :=
   match s.splitOn ":" with
-  | [t, k, f] => do
+  | [t, ks, f] => do
     let t ← t.toInt?
-    let k ← parseEvKind matchNil k
+    let k ← parseEvKind matchNil ks
     let sync ← (if f == "s" then some true else if f == "n" then some false else none)
-    pure { t := t, kind := k, sync := sync }
+    -- `cdl`: the context's own deadline timer fires when the clock reaches `t`, concurrently with
+    -- a per-try deadline on the same instant whatever the script does: always racing
+    pure { t := t, kind := k, sync := sync && ks != "cdl" }
   | _ => none
 
 def parseEvents (matchNil : Bool) (s : String) : Option (List Timed.Event) :=
@@ -67,9 +77,22 @@ def stepTimed (args : List String) : Option String := do
   let cl := (Timed.closeTime evs).bind (fun t => if t ≤ H then some t else none)
   pure ("ok " ++ " | ".intercalate (rs.map (showResult cl)))
 
+def stepHistory (args : List String) : Option String := do
+  let f := field args
+  let T ← (← f "T").toInt?
+  let n ← (← f "n").toInt?
+  let calls ← (← f "calls").toNat?
+  let r := Timed.runObs T n [] (T * 2 ^ (n.toNat + 1))
+  let ret := match r.ret with
+    | some (t, o) => s!"{t}:{showOutcome o}"
+    | none => "running"
+  let one := s!"{showInts r.txs}:{ret}"
+  pure ("ok " ++ " ".intercalate ((List.range calls).map (fun j => s!"c{j}={one}")))
+
 def stepClient (op : String) (args : List String) : Option String :=
   match op with
   | "client4" | "client6" => stepTimed args
+  | "client4h" | "client6h" => stepHistory args
   | _ => stepClientLTS op args
 
 end Dhcp.Driver.Cli
